@@ -112,7 +112,7 @@ def prepare_private(ctx, text):
     for src, dst in PRIVATE:
         (d / dst).write_text(relocate((fw.COQ / src).read_text()))
         files.append(d / dst)
-    ok, out = fw.coq_make(['Proofs/EngPyProps.vo', 'Model/PyIR.vo', 'Model/RunCase.vo'])      # what the copies import
+    ok, out = fw.coq_make(['Proofs/EngPyProps.vo', 'Proofs/PyIRProps.vo', 'Model/PyIR.vo', 'Model/RunCase.vo'])      # what the copies import
     lp = subprocess.run([str(fw.VERIF / 'lint.sh')] + [str(f) for f in files], stdout=subprocess.PIPE,
                         stderr=subprocess.STDOUT, text=True)
     lok, lout = lp.returncode == 0, lp.stdout
